@@ -413,6 +413,10 @@ def observe_pool(arg):
                     tn = tabname[op.get("t", 0)]
                     pool[op["v"]] = _base(op["how"], op["b"], ats, None if tn == "public" else tn)
                 elif k == "copy":
+                    if (len(pool) + len(it["ops"])) % 3 == 0:
+                        # the caller also asks for the same formula with table= naming the other table (what that gives is
+                        # not the subject here; it is a call that returns a new formula, so it leaves its operand alone)
+                        P.formula(pool[op["w"]], table=_tab(other))
                     pool[op["v"]] = P.formula(pool[op["w"]])
                 elif k == "hill":
                     pool[op["v"]] = pool[op["a"]].hill
